@@ -32,6 +32,8 @@ SHIFTS = ["0", "1", "2", "5", "16", "30"]
 BOOLS = ["0", "1"]
 NONZERO = ["1", "2", "3", "7", "10", "0.5", "0.25", "1.5", "1000", "0.001"]
 MATH1 = ["sin", "cos", "tan", "atan", "exp"]
+# names whose first / last characters also occur in the spelling HASH("..") itself
+HASH_NAMES = ["O2", "Main Base", "x", "Storage Tank", "Pump (2)", "Sensor", "HASH", "A", "(x)", "Heater (A)", "SH", "abc)", "Airlock", "H"]
 
 
 def nshards(tier):
@@ -99,13 +101,17 @@ def gen_num(draw, d):
     if k < 87:
         return gen_bool(draw, d + 1)
     if k < 90:
-        return const(ch(["pi", "tau", "rgas", 'HASH("O2")', 'HASH("Main Base")', 'STR("AB")', 'STR("Day")']))
+        return const(ch(["pi", "tau", "rgas", 'STR("AB")', 'STR("Day")'] + [f'HASH("{n}")' for n in HASH_NAMES]))
     if k < 94:
         n = draw(st.integers(1, 5))
         items = [ch(POOL[:14]) for _ in range(n)]
         return const("[" + ", ".join(items) + f"][{draw(st.integers(0, n - 1))}]")
     if k < 97:
-        return E("({} + " + ch(['HASH("x")', "pi", 'STR("A")']) + ")", [gen_num(draw, d + 1)])
+        if draw(st.booleans()):
+            # a hash constant as the left operand of a positive modulus / divisor (hashes may be negative, so
+            # they are never the right operand of % or /)
+            return E("(" + ch([f'HASH("{n}")' for n in HASH_NAMES]) + " " + ch(["%", "/", "-", "+"]) + " {})", [lit(ch(NONZERO))])
+        return E("({} " + ch(["+", "-", "*"]) + " " + ch(["pi"] + [f'HASH("{n}")' for n in HASH_NAMES]) + ")", [gen_num(draw, d + 1)])
     return lit(ch(POOL))
 
 
@@ -186,7 +192,7 @@ def grid_exprs():
     for a in POOL[:12]:
         for b in NONZERO[:5]:
             out.append(E("atan2({}, {})", [lit(a), lit(b)]))
-    for c in ["pi", "tau", "rgas", 'HASH("O2")', 'STR("AB")', "[4, 5, 6][2]", "[0.5][0]"]:
+    for c in ["pi", "tau", "rgas", 'STR("AB")', "[4, 5, 6][2]", "[0.5][0]"] + [f'HASH("{n}")' for n in HASH_NAMES]:
         out.append(E("({} + " + c + ")", [lit("1")]))
         out.append(E("({} * " + c + ")", [lit("2")]))
     return out
